@@ -439,8 +439,11 @@ def rnn_vs_loop(case, ctx):
     yo = np.asarray(ys_only)
     yo = np.swapaxes(yo, 0, 1) if case['time_major'] else yo
     vmask = np.arange(T)[None, :] < lens[:, None]
-    require(np.array_equal(yo[vmask], ys[vmask]), 'outputs with '
-            'return_carry=False differ from those with return_carry=True')
+    # (two separately compiled programs: equal up to rounding, not bitwise)
+    require(np.allclose(yo[vmask], ys[vmask], rtol=1e-12, atol=1e-12),
+            lambda: 'outputs with return_carry=False differ from those with '
+            'return_carry=True; max abs diff '
+            f'{np.max(np.abs(yo[vmask] - ys[vmask]))}')
   ref_out = np.zeros_like(ys)
   final = []
   for bi in range(B):
